@@ -18,7 +18,10 @@ META = {
     "assumptions": [
         "one history = the media playlists the server returns for one media playlist URL, one per poll; after the last one "
         "the server answers 404 (outcome OServerGone)",
-        "every segment / init / preload-hint request is answered with valid media; media timestamps advance 20 ms per request",
+        "every segment / init / preload-hint request is answered with valid media; media timestamps advance 20 ms per request "
+        "(300 ms in four paced corpus scenarios)",
+        "delivery is observed for the video stream only (one tagged IDR unit per media object, recorded in OnDataH26x) and judged by "
+        "the oracle alone: 'ErrClientEOS only after every fetched unit was delivered'; the Coq model has no notion of delivery",
         "playlists are structurally valid (>= 1 segment, MEDIA-SEQUENCE < 2^31) as guaranteed by playlist.Unmarshal; the "
         "no-panic theorem needs no such assumption",
         "with several renditions the order of requests ACROSS media playlists and which failing rendition reports first are "
